@@ -237,7 +237,8 @@ def buffer_tables(prog, chk):
         for opt in (0, NOHDR):
             hdr = [] if opt else ref_header(tag, L, nc, fwd)
             need = None if (not opt and L > 0xffff) else L + len(hdr)
-            sizes = sorted({0, L} | ({max(0, need + d) for d in (-3, -2, -1, 0, 1)} if need is not None else {L + 4, L + 10}))
+            span = range(-6, 4) if getattr(chk, "tier", "quick") == "thorough" else (-3, -2, -1, 0, 1)
+            sizes = sorted({0, L} | ({max(0, need + d) for d in span} if need is not None else {L + 4, L + 10}))
             for B in sizes + [None]:
                 inputs = {pn[0]: Ptr("T"), pn[1]: (Ptr("BUF") if B is not None else 0), pn[2]: (B or 0), pn[3]: Ptr("OUT"), pn[4]: opt, "T->ctx": Ptr("ctx"),
                           "T->nested": 0, "T->datap": Ptr("DATA"), "T->datap_len": L, "T->tag": tag, "T->isNonCritical": nc, "T->isForwardable": fwd}
